@@ -12,7 +12,7 @@ VERIF = os.path.dirname(os.path.dirname(os.path.abspath(__file__)))
 
 TEXT = {
     'C01': ('model_checking', '3/C01',
-            'Bounded exhaustive exploration of the real Engine: every S-family composite/script up to the bound is compared with the ideal-timeline reference model (exact application times, exactly-once, FIFO, row content on unique tokens), and every execution with <= k non-default poll answers (explorer D) is checked against trace invariants.',
+            'Bounded exhaustive exploration of the real Engine: every S-family composite/script up to the bound is compared with the ideal-timeline reference model (exact application times, exactly-once, FIFO, row content on unique tokens), and every execution with <= k non-default poll answers (explorer D) is checked against trace invariants. Also worlds starting at clock 1.5*2**30 and gated worlds whose condition variable is declared in the class defaults.',
             'Trusts the probe seams (Process subclass, user updater, user Emitter) and exact dyadic float arithmetic; bounds: N<=2/3 processes, <=3/4 driver calls, <=2/3 answer deviations.',
             'bounded exhaustive execution enumeration (cross product + deviation-bounded stateless search over poll answers) with reference-timeline conformance'),
     'C02': ('model_checking', '3/C02',
@@ -24,11 +24,11 @@ TEXT = {
             'Clock writes observed through a subclass property; termination decided by lasso + caps under fixed answer policies.',
             'deviation-bounded stateless exploration of poll answers + exhaustive schedule grids with an online clock/lasso monitor'),
     'C04': ('model_checking', '3/C04',
-            'Every permutation of the listing order of processes, steps, ports and initial-state keys of commuting composites is executed on the real Engine; invariants (no apply between same-instant invocations, identical whole-hierarchy snapshots at one instant, nothing due unapplied, step phase complete) are checked on every execution and the emitted trajectory is compared across all permutations of a world (differential).',
+            'Every permutation of the listing order of processes, steps, ports and initial-state keys of commuting composites is executed on the real Engine; invariants (no apply between same-instant invocations, identical whole-hierarchy snapshots at one instant, nothing due unapplied, step phase complete) are checked on every execution and the emitted trajectory is compared across all permutations of a world (differential). Also worlds in which a process is quiet at its first polls and starts later (due times from the trace), and worlds in which a compartment whose process reads its environment through ".." is moved by a step.',
             'Commutativity premise: token variables compared as multisets; worlds with structural operations aimed at a process due in the same batch are excluded.',
             'exhaustive permutation enumeration of real executions with snapshot invariants and a cross-permutation differential oracle'),
     'C05': ('model_checking', '3/C05',
-            'Every labelled DAG on <=4 (thorough 5) flow steps, with 0-2 legacy derivers, four nestings and two process sets, plus steps deleted/generated mid-phase, is run on the real Engine; a trace monitor decides phase placement, once-per-phase, dependency order with data-flow evidence, derivers-first and equal snapshots per generation.',
+            'Every labelled DAG on <=4 (thorough 5) flow steps, with 0-2 legacy derivers, four nestings and two process sets, plus steps deleted/generated mid-phase, is run on the real Engine; a trace monitor decides phase placement, once-per-phase, dependency order with data-flow evidence, derivers-first and equal snapshots per generation. Steps and derivers generated at run time without flow must run first, one at a time, in declaration order.',
             'Flows are well-formed DAGs; derivers are declared homogeneously so declaration order is unambiguous.',
             'exhaustive program enumeration (all DAGs up to n) executed on the implementation with a trace monitor'),
     'C12': ('model_checking', '3/C12',
@@ -60,7 +60,7 @@ TEXT = {
             'Timesteps divide the run length; several events on one variable in one tick apply in (time, listing) order.',
             'exhaustive enumeration of event lists against a reference trajectory'),
     'C06': ('exploration', '3/C06',
-            'A grammar of ports schemas x well-formed topologies x placements is enumerated completely (one port: full grammar; two ports: full grammar pairs; three ports: reduced); for each shape the real Engine is run once to read and once per declared variable (and once for all) to write; reads and the full before/after diff of the hierarchy are compared with an independent resolver written from the documentation.',
+            'A grammar of ports schemas x well-formed topologies x placements is enumerated completely (one port: full grammar; two ports: full grammar pairs; three ports: reduced); for each shape the real Engine is run once to read and once per declared variable (and once for all) to write; reads and the full before/after diff of the hierarchy are compared with an independent resolver written from the documentation. Glob ports wired with dictionaries (renamed child variables, a glob dictionary with its own _path); the alias family returns one dictionary object for two ports / the same update object on every call and checks that exactly the wired nodes change, once.',
             'Topologies that omit ports or list only some variables in a _path-less dictionary are outside the well-formed alphabet; nodes that would be both variable and store are skipped.',
             'bounded exhaustive program enumeration (schema x topology grammar) against a reference resolver with a full-state diff'),
     'C15': ('exploration', '3/C15',
@@ -68,15 +68,15 @@ TEXT = {
             'Sharers declare equal defaults; differing defaults are merged silently by design.',
             'bounded exhaustive enumeration of composites x initial-state subsets against a reference resolver'),
     'C07': ('model_checking', '3/C07',
-            'Explorer B (BFS over structural histories with canonical-state merging, each history replayed on a fresh real Engine) plus the C06 grammar with undeclared extras: at EVERY calculate_timestep/update_condition/next_update call of the observer its states argument is compared with an independent projection of the whole-hierarchy snapshot taken in the same callback.',
+            'Explorer B (BFS over structural histories with canonical-state merging, each history replayed on a fresh real Engine) plus the C06 grammar with undeclared extras: at EVERY calculate_timestep/update_condition/next_update call of the observer its states argument is compared with an independent projection of the whole-hierarchy snapshot taken in the same callback. Also controllers inside dividing / dying / migrating compartments that watch both containers (agents family), and watchers with an empty glob ("*": {}) while children are added / generated / deleted.',
             'Snapshot read inside the observer callback; canonical form drops values; observer process (ts 1, 2) or dependent step.',
             'explicit-state BFS over operation histories on the real engine with a per-callback projection invariant'),
     'C09': ('model_checking', '3/C09',
-            'Explorer B: BFS over histories of _add/_delete/_generate/_divide/_move/clear and pairs, by a step or a process, from three initial hierarchies; every history is executed on a fresh real Engine and after every tick the value tree is compared with the reference hierarchy and node identities outside the footprint (and of moved subtrees) are compared.',
+            'Explorer B: BFS over histories of _add/_delete/_generate/_divide/_move/clear and pairs, by a step or a process, from three initial hierarchies; every history is executed on a fresh real Engine and after every tick the value tree is compared with the reference hierarchy and node identities outside the footprint (and of moved subtrees) are compared. Agents family: the same operations issued from inside the compartments (self-division with copied or fresh processes, self-deletion, self-move, operations on siblings).',
             'Canonical-state merging keeps shape/keys/kind; compartment processes inert or idle; K6 (tuple-path _delete) is a known finding.',
             'explicit-state BFS over operation histories with a reference hierarchy model and an identity frame condition'),
     'C10': ('model_checking', '3/C10',
-            'Explorer B x victim status (idle / due / in flight via timesteps 1 and 3) x issuer x listing order: the multiset of (path, time) process invocations and the step runs of every phase are compared with the schedule derived from the reference hierarchy; the published composite is compared with the store and with the Composite the engine was built from; a rebuilt engine must continue with the same rows.',
+            'Explorer B x victim status (idle / due / in flight via timesteps 1 and 3) x issuer x listing order: the multiset of (path, time) process invocations and the step runs of every phase are compared with the schedule derived from the reference hierarchy; the published composite is compared with the store and with the Composite the engine was built from; a rebuilt engine must continue with the same rows. Agents family: the operations are issued by a controller (process or step) inside the compartments - self-division with copied or fresh processes, self-deletion, self-move, operations on siblings - with growth timesteps 1 and 2.',
             'Steps are idempotent derivations; K2 (_move of a busy process) is a known finding.',
             'explicit-state BFS over operation histories with a reference schedule, a published-composite invariant and a rebuilt-engine differential'),
     'C16': ('exploration', '3/C16',
